@@ -99,6 +99,8 @@ fn main() {
         "C08" => facets::c08::run(&opts),
         "C18" => facets::c18::run(&opts),
         "C17" => facets::c17::run(&opts),
+        "C14" => facets::c14::run(&opts),
+        "C15" => facets::c15::run(&opts),
         other => {
             eprintln!("unknown facet {}", other);
             std::process::exit(2)
